@@ -1,7 +1,7 @@
 (* C05, step 6: assembling the property-level statements. *)
 From Coq Require Import ZArith Bool Ascii Arith List Sorted Lia.
-From CBI Require Import Lib.Data Model.C05 Model.C05a Spec.C05 Model.C05r
-                        Proofs.C05t Proofs.C05s Proofs.C05h Proofs.C05b Proofs.C05n.
+From CBI Require Import Lib.Data Model.C05 Model.C05a Spec.C05 Spec.C05f Model.C05r
+                        Proofs.C05t Proofs.C05s Proofs.C05h Proofs.C05b Proofs.C05n Proofs.C05f.
 Import ListNotations.
 
 Lemma cls_lines_eq ls : cls_lines ls = map cls_line ls.
@@ -184,4 +184,30 @@ Proof.
   unfold M_parse_file. destruct (plines_of_text t) as [ls|]; [|discriminate]. intros H.
   exists ls. split; [reflexivity|].
   destruct (parse_file_invariants conc ls tr H) as (Q1 & Q2 & Q3 & Q4 & _). auto.
+Qed.
+
+(* ---------- raw-text forms: S computed from the characters of the text alone ---------- *)
+Theorem counted_lines_raw (t : list ascii) :
+  ends_nl t = true ->
+  r_wf (F_scan t) = true -> r_c20 (F_scan t) = false -> r_c22 (F_scan t) = false ->
+  exists out total n,
+    M_file_source t = FsOk out total n /\
+    map (fun l : lline osl => (ll_lines l, match ll_cat l with CPPD => true | _ => false end)) out
+      = r_logical (F_scan t) /\
+    flat out = concat (map fst (r_logical (F_scan t))).
+Proof.
+  intros He. destruct (F_scan_eq t He) as (ls & P & E). rewrite E. intros H1 H2 H3.
+  destruct (counted_lines_text t ls P H1 H2 H3) as (out & total & Q1 & Q2 & Q3).
+  exists out, total, (length ls). auto.
+Qed.
+
+Theorem nodes_spec_raw (t : list ascii) :
+  ends_nl t = true ->
+  r_wf (F_scan t) = true -> r_c20 (F_scan t) = false -> r_c22 (F_scan t) = false ->
+  exists tr, M_parse_file t = Some tr /\
+    map (fun x => (n_kind x, n_lines x)) (t_nodes tr) = group [] (r_logical (F_scan t)) /\
+    t_total_sloc tr = length (concat (map fst (r_logical (F_scan t)))).
+Proof.
+  intros He. destruct (F_scan_eq t He) as (ls & P & E). rewrite E. intros H1 H2 H3.
+  exact (nodes_spec_text t ls P H1 H2 H3).
 Qed.
